@@ -16,6 +16,7 @@ import BB.Driver.OpsPy
 import BB.Driver.OpsPyTape
 import BB.Driver.OpsProver
 import BB.Driver.OpsProver2
+import BB.Driver.OpsPyRun
 
 namespace BB.Driver
 
@@ -166,6 +167,8 @@ def handle (op : String) (args : List String) (text : String) : String :=
     | none => match OpsProver.handle op args text with
     | some r => r
     | none => match OpsProver2.handle op args text with
+    | some r => r
+    | none => match OpsPyRun.handle op args text with
     | some r => r
     | none => "BAD-OP"
 
